@@ -490,11 +490,25 @@ func (cs *Case) goldschmidt() bool {
 // errClass classifies a wrong divider output: quotient off by k, remainder off
 // by k*|divisor| (|k| <= 3), modulo 2^wr.
 func (cs *Case) errClass(sp *spec, in []*big.Int, i int, got, exp *big.Int) string {
-	if cs.WR < 3 {
+	// The dividers compute n = max(wx, wy) bit values and truncate or
+	// zero-extend them to the result width: the error is classified modulo
+	// 2^m with m = min(wr, n) (for the unsigned family; the signed family
+	// negates at the result width).
+	m := cs.WR
+	if sp.family == "udiv" {
+		if n := imax(cs.W[0], cs.W[1]); n < m {
+			m = n
+		}
+		if got.BitLen() > m {
+			return ""
+		}
+		exp = new(big.Int).And(exp, new(big.Int).Sub(new(big.Int).Lsh(big.NewInt(1), uint(m)), big.NewInt(1)))
+	}
+	if m < 2 {
 		return ""
 	}
 	// Error class: quotient off by k, remainder off by k*|divisor| (|k| <= 3).
-	half := new(big.Int).Lsh(big.NewInt(1), uint(cs.WR-1))
+	half := new(big.Int).Lsh(big.NewInt(1), uint(m-1))
 	d := new(big.Int).Sub(got, exp)
 	if d.CmpAbs(half) > 0 {
 		if d.Sign() > 0 {
